@@ -455,12 +455,19 @@ class RefPeer(asyncio.Protocol):
             namelist(cmp_) + namelist(cmp_) + namelist([]) + namelist([]) + \
             boolean(False) + u32(0)
 
-    async def handshake(self, peer_kexinit=None):
-        """Run one key exchange (initial or re-exchange).  If the peer's
-           KEXINIT was already received, pass it in."""
+    def send_kexinit_now(self):
+        """Send our KEXINIT ahead of handshake(already_sent=True)"""
 
         self.my_kexinit = self.kexinit_payload()
         self.send(self.my_kexinit)
+
+    async def handshake(self, peer_kexinit=None, already_sent=False):
+        """Run one key exchange (initial or re-exchange).  If the peer's
+           KEXINIT was already received, pass it in."""
+
+        if not already_sent:
+            self.my_kexinit = self.kexinit_payload()
+            self.send(self.my_kexinit)
 
         if peer_kexinit is None:
             peer_kexinit = await self.expect(20)
